@@ -20,7 +20,12 @@ using namespace dec;
 
 namespace {
 
-const char *MODELS[] = {"en-us", "fr-fr"};
+// 0, 1: the bundled models.  2-4: layouts derived from en-us by tools/gen_models.py (DESIGN.md 9.9) so that the
+// loaders the bundled models never reach are enumerated too: "mixw" = PTM with a float mixture-weight file
+// (read_mixw), "ms" = the same files served by the general scorer through a senone-to-codebook map file
+// (ms_mgau.c, ms_senone.c), "semi" = one codebook + the bundled dump (s2_semi_mgau.c).
+const char *MODELS[] = {"en-us", "fr-fr", "mixw", "ms", "semi"};
+const int NMODELS = 5;
 struct FileSpec {
   const char *cfgkey;
   const char *fname;
@@ -35,8 +40,10 @@ const FileSpec FILES[] = {
     {"featparams", "feat_params.json", false},
     {"fdict", "noisedict.txt", false},
     {"lda", "feature_transform", true}, // not bundled with the models: the repository's test file
+    {"mixw", "mixture_weights", true},  // derived models only
+    {"senmgau", "senmgau.map", true},   // derived model "ms" only; written by initModel from the model definition
 };
-const int NFILES = 8;
+const int NFILES = 10;
 
 enum Kind { MISSING, EMPTY, TRUNC, FIELD, FLIPBYTE };
 enum Delivery { DIR_MMAP, DIR_NOMMAP, LOADER };
@@ -49,14 +56,28 @@ struct Fault {
   Delivery delivery = DIR_MMAP;
 };
 
-std::vector<std::string> gData[2][8];
-std::string gBytes[2][8];
+std::string gBytes[5][10];
+std::string gMapPath; // senone-to-codebook map of the derived "ms" model
 std::vector<Fault> gFaults;
 std::string gTmp;
 
+std::string modelDir(int model) {
+  if (model <= 1) return audio::repoDir() + "/model/" + MODELS[model];
+  return derivedModelsDir() + (model == 4 ? "/semi" : "/mixw");
+}
+
+// which files of a derived layout are its own (the others are the bundled files, enumerated under en-us)
+bool ownFile(int model, int file) {
+  if (model <= 1) return file <= 7;
+  if (model == 2) return file == 8;
+  if (model == 3) return file == 8 || file == 9;
+  return file == 1 || file == 2 || file == 3;
+}
+
 std::string pathOf(int model, int file) {
   if (file == 7) return audio::repoDir() + "/tests/data/feature_transform";
-  return audio::repoDir() + "/model/" + MODELS[model] + "/" + FILES[file].fname;
+  if (file == 9) return gMapPath;
+  return modelDir(model) + "/" + FILES[file].fname;
 }
 
 std::string slurpFile(const std::string &p) {
@@ -131,8 +152,9 @@ std::vector<long> mdefBoundaries(const std::string &b) {
 
 void buildFaults(bool thorough) {
   gFaults.clear();
-  for (int m = 0; m < 2; ++m)
+  for (int m = 0; m < NMODELS; ++m)
     for (int f = 0; f < NFILES; ++f) {
+      if (!ownFile(m, f)) continue;
       gBytes[m][f] = slurpFile(pathOf(m, f));
       const std::string &b = gBytes[m][f];
       if (b.empty()) continue;
@@ -140,7 +162,7 @@ void buildFaults(bool thorough) {
       long he = headerEnd(b, f);
       std::vector<Delivery> dels = {DIR_MMAP};
       if (thorough || f <= 4) dels.push_back(DIR_NOMMAP);
-      if (f == 0 || f == 1 || f == 2 || f == 4) dels.push_back(LOADER);
+      if (m <= 1 && (f == 0 || f == 1 || f == 2 || f == 4)) dels.push_back(LOADER);
       for (Delivery dl : dels) {
         if (dl != LOADER) {
           gFaults.push_back({m, f, MISSING, 0, 0, dl});
@@ -172,7 +194,8 @@ void buildFaults(bool thorough) {
           // the words that really are header fields / counts / dimensions of this layout
           // (mdef: 10 counts; Gaussian files: magic + 3 counts + 3 stream lengths + total;
           //  sendump: rows, columns; tmat / transform: magic + 3 dims + total)
-          static const int NW[] = {10, 8, 8, 2, 5, 0, 0, 5};
+          //  mixture weights: magic + 3 dims + total; senone map: magic + codebook count + senone count)
+          static const int NW[] = {10, 8, 8, 2, 5, 0, 0, 5, 5, 3};
           int nwords = NW[f];
           for (int w = 0; w < nwords; ++w) {
             long off = he + 4L * w;
@@ -241,15 +264,16 @@ std::string damaged(const Fault &f) {
 
 config_t *baseConfig(int model) {
   config_t *cfg = config_init(NULL);
-  config_set_str(cfg, "hmm", (audio::repoDir() + "/model/" + MODELS[model]).c_str());
-  config_set_str(cfg, "dict", (verifDir() + (model == 0 ? "/data/mini.dic" : "/data/mini_fr.dic")).c_str());
+  config_set_str(cfg, "hmm", modelDir(model).c_str());
+  if (model == 3) config_set_str(cfg, "senmgau", gMapPath.c_str());
+  config_set_str(cfg, "dict", (verifDir() + (model != 1 ? "/data/mini.dic" : "/data/mini_fr.dic")).c_str());
   config_set_str(cfg, "loglevel", "FATAL");
   return cfg;
 }
 
 Verdict smokeDecode(decoder_t *d, const char *what, bool expectSentence, int model = 0) {
-  const auto &a = model == 0 ? audio::goforward() : audio::goforwardFr();
-  const char *text = model == 0 ? "go forward ten meters" : "avance de dix m\xc3\xa8tres";
+  const auto &a = model != 1 ? audio::goforward() : audio::goforwardFr();
+  const char *text = model != 1 ? "go forward ten meters" : "avance de dix m\xc3\xa8tres";
   if (decoder_set_align_text(d, text) != 0) {
     // a damaged but self-consistent model (e.g. a renamed phone) may refuse the text through
     // its return value; only the intact model must accept it
@@ -326,7 +350,7 @@ Verdict runFault(const Fault &f, Ctx &ctx) {
     unlink(path.c_str());
     ctx.label(accepted ? "outcome:init-succeeded" : "outcome:init-failed");
     // a truncated or missing model file cannot describe a whole model
-    if ((f.kind == MISSING || f.kind == EMPTY || f.kind == TRUNC) && f.file <= 4 && accepted) {
+    if ((f.kind == MISSING || f.kind == EMPTY || f.kind == TRUNC) && (f.file <= 4 || f.file >= 8) && accepted) {
       // sendump / means etc. cut inside the body must be refused
       return Verdict::fail(std::string("damaged-file-accepted:") + FILES[f.file].fname + ":" + (f.kind == TRUNC ? "truncated" : f.kind == EMPTY ? "empty" : "missing"), "initialisation succeeded although the file is damaged: " + faultStr(f));
     }
@@ -352,7 +376,16 @@ Verdict propC17(Choices &c, Ctx &ctx) {
   Fault f;
   f.model = (int)(idx % 2);
   f.file = (int)c.range(0, 6);
-  if (gBytes[f.model][f.file].empty()) f.file = 0;
+  if (c.coin(15)) { // a file of one of the derived layouts
+    static const int dm[] = {2, 3, 3, 4, 4, 4}, df[] = {8, 8, 9, 1, 2, 3};
+    int k = (int)c.range(0, 5);
+    f.model = dm[k];
+    f.file = df[k];
+  }
+  if (gBytes[f.model][f.file].empty()) {
+    f.model = (int)(idx % 2);
+    f.file = 0;
+  }
   long size = (long)gBytes[f.model][f.file].size();
   // (only truncation is sampled: the statement covers truncation at any byte and corruption of
   //  header fields and counts, not arbitrary corruption of the body data)
@@ -364,6 +397,26 @@ Verdict propC17(Choices &c, Ctx &ctx) {
   return runFault(f, ctx);
 }
 
+// the senone-to-codebook map of the "ms" layout: version 1.2 (carries the codebook count), one uint32 per senone =
+// the CI phone the model definition assigns to it, which is the mapping the PTM scorer assumes
+void writeSenoneMap() {
+  gMapPath = gTmp + "/senmgau." + std::to_string(getpid()) + ".map";
+  bin_mdef_t *m = bin_mdef_read(NULL, (modelDir(0) + "/mdef").c_str());
+  if (!m) return;
+  std::string b = "s3\nversion 1.2\nendhdr\n";
+  auto put = [&](uint32_t x) { b.append((const char *)&x, 4); };
+  put(0x11223344u);
+  put((uint32_t)bin_mdef_n_ciphone(m));
+  put((uint32_t)bin_mdef_n_sen(m));
+  for (int i = 0; i < bin_mdef_n_sen(m); ++i) put((uint32_t)bin_mdef_sen2cimap(m, i));
+  bin_mdef_free(m);
+  FILE *fp = fopen(gMapPath.c_str(), "wb");
+  if (!fp) return;
+  fwrite(b.data(), 1, b.size(), fp);
+  fclose(fp);
+  atexit([] { unlink(gMapPath.c_str()); });
+}
+
 bool thoroughTier() {
   const char *t = getenv("VERIF_TIER");
   return t && !strcmp(t, "thorough");
@@ -373,6 +426,7 @@ void initModel() {
   err_set_loglevel(ERR_FATAL);
   const char *tmp = getenv("VERIF_TMP");
   gTmp = tmp ? tmp : "/tmp";
+  writeSenoneMap();
   buildFaults(thoroughTier());
   audio::goforward();
   audio::goforwardFr();
